@@ -13,37 +13,47 @@ HARNESS_TIMEOUT = 3600
 
 TRUSTED = [
     "Lean 4 kernel; axioms of every theorem audited (propext, Classical.choice, Quot.sound at most)",
-    "hand-written runner model lean/CppUModel/Model/Runner.lean (Utest::run, runOneTest, plugins, registry loop, repeat loop, "
-    "console printing), tied to the sources by the h_c01 correspondence of this run in both build variants (with and without "
-    "C++ exceptions): every printed string, every executed statement, every plugin action with the setjmp depth at which it ran",
+    "hand-written runner model lean/CppUModel/Model/Runner.lean (Utest::run, runOneTest, plugins, registry loop with the "
+    "group start/end clock reads, repeat loop, console printing incl. -v, -vv, -c, progress dots, rethrow mode), tied to the "
+    "sources by the h_c01 correspondence of this run in both build variants (with and without C++ exceptions): every printed "
+    "string, every executed statement, every plugin action with the setjmp depth at which it ran, every clock reading",
     "contract of setjmp/longjmp and of C++ unwinding: a function called through PlatformSpecificSetJmp leaves by return, by "
     "PlatformSpecificLongJmp to the innermost saved buffer, or by an exception that runs no code of the platform layer "
     "(modelled, not verified; the depth after every test is observed through hook H1)",
-    "translate/extract_runner.py: jump-buffer array length, TestResult::isFailure, return expression of runAllTests (regenerated "
-    "into Gen/RunnerConstants.lean; both executable definitions are also exercised by the correspondence), and the shape checks of "
-    "PlatformSpecificSetJmp/LongJmp/RestoreJumpBuffer, TestResult::addFailure and the repeat-loop accumulation",
-    "statement of the theorems in Props/C01.lean and of the textbook definitions in Spec/Runner.lean",
+    "translate/extract_runner.py: jump-buffer array length, TestResult::isFailure, the verdict condition of "
+    "TestOutput::printTestsEnded, the return expression of runAllTests (regenerated into Gen/RunnerConstants.lean; every "
+    "executable definition is also exercised by the correspondence), and the shape checks of "
+    "PlatformSpecificSetJmp/LongJmp/RestoreJumpBuffer, TestResult::addFailure, the rest of printTestsEnded and the repeat-loop "
+    "accumulation",
+    "statement of the theorems in Props/C01.lean and of the textbook definitions and the console reader in Spec/Runner.lean",
 ]
 ASSUMPTIONS = [
-    "rethrow mode off (-e / UtestShell::setRethrowExceptions(false)); with it on an escaping exception ends the process by design",
+    "rethrow mode off (-e / UtestShell::setRethrowExceptions(false)) for the property itself; rethrow mode is modelled up to "
+    "'the exception leaves runAllTests' (theorem rethrow_propagates, observed by the harness catching it around runAllTestsMain)",
     "size_t counters do not wrap; the runner's return value is exact only below 2^32 accumulated failures (int cast) — "
-    "theorem exit_value_wraps gives the witness",
+    "theorems exit_value_wraps / exit_value_wraps_program give the witness",
     "plugins report errors through result.addFailure (as MemoryLeakWarningPlugin and MockSupportPlugin do); a plugin that calls a "
     "terminating check in a pre/post action is outside the model",
     "an escaping exception has no location of its own: the record carries the test's file:line",
     "test code does not itself call PlatformSpecificSetJmp/LongJmp/RestoreJumpBuffer",
-    "console output, working environment eclipse (Gcc platform), no colour, not very verbose; clock seam pinned",
+    "console output, working environment eclipse (Gcc platform); the clock seam is scripted by the generator and its readings are "
+    "environment inputs of the model",
+    "console_reader_full needs the free strings of the failing events (message, file names) not to be one of the three marker "
+    "strings ' Failure in ', 'OK (', 'Errors (' and no message to be a lone ':'",
 ]
-RULE = ("test programs of 0-60 tests (thorough: up to 400): every failure kind (C++-style check, C-style check, TEST_EXIT, "
-        "std exception, foreign exception) in every phase and combined across phases, with the real macros both in their plain "
-        "and _LOCATION forms; runs of 11-40 consecutive failing tests of one kind and of mixed kinds; ignored tests, -ri; strict "
-        "filters incl. ones selecting nothing; plugins reporting errors in pre/post actions; -v; repeat forms -r, -rN, -r N; both "
-        "build variants. non-trivial = at least one failure record or a 'ran nothing' summary; distinct = distinct op sequences")
+RULE = ("test programs of 0-100 tests (thorough: up to 400): every failure kind (FAIL, FAIL_TEST, CHECK, UtestShell::fail with "
+        "both terminators, FAIL_TEXT_C, CHECK_C, TEST_EXIT and exitTest without exceptions, std exception, foreign exception) in "
+        "every phase and combined across phases, plain and _LOCATION forms; runs of 11-40 consecutive failing tests of one kind "
+        "and of mixed kinds; ignored tests, -ri, runs in which nothing runs but something is ignored (only IGNORE_TESTs, filters "
+        "selecting only ignored tests, repeat > 1); strict filters incl. ones selecting nothing; plugins reporting errors in "
+        "pre/post actions; -v, -vv, -c; scripted clock readings incl. a clock running backwards; 50/51/100 tests for the progress "
+        "line break; repeat forms -r, -rN, -r N; rethrow mode with and without a throwing test; both build variants. non-trivial "
+        "= at least one failure record or a 'ran nothing' summary; distinct = distinct op sequences")
 
 GROUPS = ["g1", "g2", "g3"]
 NAMES = ["n%d" % i for i in range(1, 9)]
 FAIL_KINDS = ["failcpp", "checkcpp", "failc", "checkc", "failplain", "checkplain", "failcplain", "checkcplain",
-              "throwstd", "throwother", "exit"]
+              "failtest", "failtestplain", "shellfail", "shellfailc", "throwstd", "throwother", "exit", "exitc"]
 THROWS = ("throwstd", "throwother")
 PHASES = ["setup", "body", "teardown"]
 
@@ -60,7 +70,7 @@ class Gen:
 
     def stmt_fail(self, kind, tline):
         rng = self.rng
-        if kind in ("failcpp", "checkcpp", "failc", "checkc"):
+        if kind in ("failcpp", "checkcpp", "failc", "checkc", "failtest", "shellfail", "shellfailc"):
             f = "t" if rng.random() < 0.55 else str(rng.randrange(4))
             line = max(0, tline + rng.choice([-3, -1, 0, 0, 1, 2, 5, 17]))
             return "%s %s %d" % (kind, f, line)
@@ -120,9 +130,24 @@ class Gen:
         return fails
 
 
-def cfg_line(rng, repeat=None):
+def cfg_line(rng, repeat=None, verbosity=None, run_ignored=None, rethrow=None):
+    """cfg <repeat form> <verbosity: bit0 -v, bit1 -vv> <-ri> <-c> <rethrow mode (no -e)>"""
     rep = repeat or rng.choice(["none"] * 8 + ["bare", "a1", "a2", "a2", "a3", "s2", "s3", "a0", "s1"])
-    return "cfg %s %d %d" % (rep, 1 if rng.random() < 0.3 else 0, 1 if rng.random() < 0.15 else 0)
+    if verbosity is None:
+        verbosity = rng.choice([0] * 11 + [1] * 4 + [2] * 3 + [3] * 2)
+    if run_ignored is None:
+        run_ignored = rng.random() < 0.15
+    if rethrow is None:
+        rethrow = rng.random() < 0.12
+    return "cfg %s %d %d %d %d" % (rep, verbosity, 1 if run_ignored else 0, 1 if rng.random() < 0.2 else 0, 1 if rethrow else 0)
+
+
+def clock_line(rng):
+    """scripted clock seam: reading i = base + step*i + offs[i % n]; large offsets make it run backwards"""
+    base = rng.choice([0, 0, 5, 1000, 1 << 40, (1 << 62) + 12345])
+    step = rng.choice([0, 1, 1, 3, 7, 20])
+    offs = [rng.choice([0, 0, 1, 2, 5, 50, 999]) for _ in range(rng.randrange(1, 7))]
+    return "clock %d %d %s" % (base, step, " ".join(str(o) for o in offs))
 
 
 def add_plugins(rng, ops):
@@ -146,10 +171,67 @@ def add_filters(rng, ops):
         ops.append("filter %s %s" % (k, rng.choice(GROUPS) if "g" in k else rng.choice(NAMES)))
 
 
-def gen_case(rng, ntests, throw_free=False, p_fail=0.45, long_run=None):
+def gen_ignored_case(rng, throw_free=False):
+    """runs in which nothing runs but something is ignored (must read OK and return 0), and their
+    neighbours: only IGNORE_TESTs; a filter that selects only ignored tests; the same with -ri"""
+    g = Gen(rng, throw_free)
+    shape = rng.choice(["all", "all", "group", "group", "name", "mixed"])
+    ops = [cfg_line(rng, repeat=rng.choice(["none", "none", "bare", "a2", "a3", "s2", "s3"]),
+                    run_ignored=rng.random() < 0.2, rethrow=False)]
+    if rng.random() < 0.4:
+        ops.append(clock_line(rng))
+    if shape == "group":
+        ops.append("filter sg gi")
+    elif shape == "name":
+        ops.append("filter sn ni")
+    elif shape == "mixed":
+        ops.append("filter xsg g1")
+    if rng.random() < 0.3:
+        add_plugins(rng, ops)
+    n_ign = rng.randrange(1, 5)
+    others = 0 if shape == "all" else rng.randrange(0, 4)
+    slots = ["i"] * n_ign + ["o"] * others
+    rng.shuffle(slots)
+    for k in slots:
+        if k == "i":
+            g.test(ops, g.random_fails(0.5), ignored=True,
+                   group="gi" if shape in ("group", "mixed") else None, name="ni" if shape == "name" else None)
+        else:
+            g.test(ops, g.random_fails(0.4), ignored=False, group="g1" if shape == "mixed" else rng.choice(["g1", "g2"]),
+                   name=rng.choice(NAMES))
+    ops.append("run")
+    return ops
+
+
+def gen_rethrow_case(rng):
+    """rethrow mode (no -e): the first std/foreign exception leaves runAllTests"""
+    g = Gen(rng)
+    ops = [cfg_line(rng, rethrow=True)]
+    if rng.random() < 0.4:
+        ops.append(clock_line(rng))
+    add_plugins(rng, ops)
+    n = rng.randrange(1, 7)
+    at = rng.randrange(n + 1)        # == n: nobody throws
+    for i in range(n):
+        if i == at:
+            fails = {rng.choice(PHASES): rng.choice(THROWS)}
+            if rng.random() < 0.4:
+                fails[rng.choice(PHASES)] = rng.choice(g.kinds())
+        else:
+            fails = g.random_fails(0.4)
+            if i < at:
+                fails = {ph: k for ph, k in fails.items() if k not in THROWS}
+        g.test(ops, fails, ignored=rng.random() < 0.1)
+    ops.append("run")
+    return ops
+
+
+def gen_case(rng, ntests, throw_free=False, p_fail=0.45, long_run=None, verbosity=None):
     """long_run: (length, kind or None): a run of consecutive failing tests inside the program"""
     g = Gen(rng, throw_free)
-    ops = [cfg_line(rng)]
+    ops = [cfg_line(rng, verbosity=verbosity)]
+    if rng.random() < 0.6:
+        ops.append(clock_line(rng))
     add_filters(rng, ops)
     add_plugins(rng, ops)
     run_at = rng.randrange(ntests + 1) if long_run else -1
@@ -190,7 +272,8 @@ def gen_malformed(rng):
         elif x < 0.86 and pool:
             ops.append("test %s g1 n1 0 1 0" % rng.choice(pool))                                         # duplicate label
         elif x < 0.93:
-            ops.append(rng.choice(["test t99 g1 n1 7 1 0", "filter zz a", "filter sg a-b", "plugin p1", "cfg x 0 0", "frob"]))
+            ops.append(rng.choice(["test t99 g1 n1 7 1 0", "filter zz a", "filter sg a-b", "plugin p1", "cfg x 0 0 0 0", "frob",
+                                   "clock 1 2", "clock 1 2 x", "cfg none 4 0 0 0", "cfg none 0 0 0"]))
         else:
             ops.append("run")                                                                            # run more than once
     ops.append("run")
@@ -206,9 +289,16 @@ def stream(rng, tier, throw_free=False, scale=1.0):
     sizes = [0, 1, 1, 2, 2, 3, 3, 4, 5, 6, 8, 10, 15] if quick else [0, 1, 2, 3, 4, 5, 6, 8, 10, 15, 20, 30]
     for _ in range(n_small):
         out.append(("gen", gen_case(rng, rng.choice(sizes), throw_free, p_fail=rng.choice([0.0, 0.15, 0.45, 0.45, 0.8]))))
-    # medium / large programs
+    # nothing runs, something is ignored (and neighbours)
+    for _ in range(int((120 if quick else 900) * scale)):
+        out.append(("ignored", gen_ignored_case(rng, throw_free)))
+    if not throw_free:
+        for _ in range(int((80 if quick else 600) * scale)):
+            out.append(("rethrow", gen_rethrow_case(rng)))
+    # medium / large programs; the progress dots break the line after every 50th test
     for _ in range(int((60 if quick else 300) * scale)):
-        out.append(("gen", gen_case(rng, rng.choice([20, 30, 45, 60]), throw_free, p_fail=rng.choice([0.2, 0.5, 0.9]))))
+        out.append(("gen", gen_case(rng, rng.choice([20, 30, 45, 50, 51, 60, 100]), throw_free,
+                                    p_fail=rng.choice([0.2, 0.5, 0.9]), verbosity=rng.choice([0, 0, 0, 1, 2]))))
     if not quick:
         for _ in range(int(12 * scale)):
             out.append(("gen", gen_case(rng, rng.choice([150, 250, 400]), throw_free, p_fail=rng.choice([0.3, 0.8]))))
@@ -277,10 +367,17 @@ def observe(r, rep, prefix=""):
         elif l.startswith("> cfg"):
             w = l.split()
             rep.count(prefix + "repeat." + w[2])
-            if w[3] == "1":
-                rep.count(prefix + "with.verbose")
+            rep.count(prefix + "verbosity." + w[3])
             if w[4] == "1":
                 rep.count(prefix + "with.run_ignored")
+            if w[5] == "1":
+                rep.count(prefix + "with.colour")
+            if w[6] == "1":
+                rep.count(prefix + "with.rethrow_mode")
+        elif l.startswith("> clock"):
+            rep.count(prefix + "with.scripted_clock")
+        elif l.startswith("propagated "):
+            rep.count(prefix + "branch.exception_left_the_run")
     if best >= 11:
         rep.count(prefix + "branch.consecutive_failing_tests_ge11")
     if best >= 30:
@@ -362,18 +459,25 @@ def extra(ctx, exe):
 
 
 LEVEL_TEXT = ("Machine-checked Lean 4 theorems over an executable model of the runner, for every test program (any number of "
-              "tests, any statements in setup/body/teardown), plugin chain, filter set, repeat count and both build variants, "
-              "rethrow off: the phases that run and the statements that execute are exactly the textbook ones (body iff setup "
-              "completed, teardown always, nothing after a terminating statement); the setjmp depth is restored after every "
-              "test and the 10-slot array is never indexed out of range, by induction over the test list and the repetitions; "
-              "the failure records of a repetition are exactly the failing events, in order, each once, with its own file:line, "
-              "and failureCount is their number; the summary carries the true counts and reads OK iff no failure and something "
-              "ran or was ignored; the return value is 0 iff every repetition is fine, below 2^32 failures. The model is tied to "
-              "the code on every run by a differential harness (real CommandLineTestRunner, real macros, ASan/UBSan, both build "
-              "variants, setjmp depth via hook H1) whose observations are also judged by an independent specification oracle, "
-              "and by regenerated constants/expressions with shape checks.")
+              "tests, any statements in setup/body/teardown), plugin chain, filter set, repeat count, verbosity (-v, -vv), colour "
+              "option, stream of clock readings and both build variants, rethrow off: the phases that run and the statements that "
+              "execute are exactly the textbook ones (body iff setup completed, teardown always, nothing after a terminating "
+              "statement, TEST_EXIT semantics); the setjmp depth is restored after every test and the 10-slot array is never "
+              "indexed out of range, by induction over the test list and the repetitions; the failure records of a repetition are "
+              "exactly the failing events, in order, each once, with its own file:line, and failureCount is their number; a "
+              "reader of the WHOLE console text (every position) gets back exactly these records and one summary per repetition "
+              "with the true counts (console_reader_full); the printed verdict condition and TestResult::isFailure (both "
+              "regenerated) agree, so the summary reads OK iff no failure and something ran or was ignored; every test is counted "
+              "once as run, ignored or filtered out (run also when its setup fails); the summary time is last minus first clock "
+              "reading; the progress line has one indicator per test and a break after every 50th; the return value is 0 iff "
+              "every repetition is fine, below 2^32 failures; in rethrow mode the first std/foreign exception is recorded once "
+              "and leaves runAllTests. The model is tied to the code on every run by a differential harness (real "
+              "CommandLineTestRunner, real macros, ASan/UBSan, both build variants, setjmp depth via hook H1, scripted clock) whose "
+              "observations are also judged by an independent specification oracle, and by regenerated constants/expressions with "
+              "shape checks.")
 LEVEL_NOTE = ("Trusted: Lean kernel; the hand-written model (validated token by token against the code in this run); the contract "
               "of setjmp/longjmp/unwinding (modelled; depth observed); the extractor; theorem and spec statements. Not carried by "
               "theorems: what the compiled setjmp/longjmp and the unwinder do (observed under ASan/UBSan on runs of up to 40, "
-              "thorough 300, consecutive failing tests); rethrow mode; the int cast above 2^32 failures (witness theorem).")
+              "thorough 300, consecutive failing tests); the int cast above 2^32 failures (witness theorems); that FAIL, FAIL_TEST "
+              "and UtestShell::fail are the same statement of the model is observed by the harness, not proved.")
 TECHNIQUE = "Lean 4 refinement proofs (operational runner model = declarative specification) + differential correspondence harness in two build variants + regenerated constants"
